@@ -311,6 +311,9 @@ func (n *Node) Start(ctx context.Context) (err error) {
 		}
 	}()
 	n.KV.Probe, n.Exec.Probe = nil, nil
+	if n.Exec.Reopen != nil {
+		n.Exec.Inner = n.Exec.Reopen()
+	}
 	var dalayer coreda.DA = n.W.DA
 	if n.DAOverride != nil {
 		dalayer = n.DAOverride
